@@ -75,6 +75,8 @@ pub struct BodyPlan {
     pub twin: bool,
     /// `send()` runs on a thread of its own; the response comes back to the caller's thread to be read
     pub send_on_other_thread: bool,
+    /// an overall `timeout` set on the request (far beyond anything the run reaches unless a check says otherwise)
+    pub overall_timeout_ms: Option<u64>,
     /// how the chunked body was written (to re-encode it with other line endings)
     pub chunk_specs: Vec<ChunkSpec>,
     pub last_chunk_line: Vec<u8>,
@@ -282,6 +284,7 @@ pub fn gen_plan(g: &mut G, max_payload: usize) -> BodyPlan {
         lf_line_endings: false,
         twin: false,
         send_on_other_thread: false,
+        overall_timeout_ms: None,
         garbage,
         wire,
         declared_len: len,
@@ -344,6 +347,7 @@ pub fn plan_from_payload(g: &mut G, payload: Vec<u8>, mut headers: Vec<(String, 
         lf_line_endings: false,
         twin: false,
         send_on_other_thread: false,
+        overall_timeout_ms: None,
         garbage: 0,
         declared_len: len,
         script: Script::from_wire(&wire.bytes, &segs, End::Fin),
@@ -729,6 +733,9 @@ pub fn caller_with(plan: &BodyPlan, stop_on_block: bool, tweak: impl FnOnce(atto
         .read_timeout(Duration::from_millis(plan.read_timeout_ms));
     if plan.tls {
         rb = rb.add_root_certificate(ca_cert()).proxy_settings(attohttpc::ProxySettings::builder().build());
+    }
+    if let Some(t) = plan.overall_timeout_ms {
+        rb = rb.timeout(Duration::from_millis(t));
     }
     let rb = tweak(rb);
     if let Some(k) = plan.prelude {
